@@ -25,7 +25,7 @@ NAN = float("nan")
 INF = float("inf")
 
 ENGINE_CLASS = {"numpy": "npg", "numba": "npg", "flox": "flox", "numbagg": "numbagg"}
-DKIND = {"float64": "f8", "float32": "f4", "int64": "i8", "int32": "i4", "int8": "i1", "uint8": "u1", "bool": "b1"}
+DKIND = {"float64": "f8", "float32": "f4", "int64": "i8", "int32": "i4", "int8": "i1", "uint8": "u1", "bool": "b1", "int16": "i2"}
 
 REDUCTIONS = [
     "sum", "nansum", "prod", "nanprod", "max", "nanmax", "min", "nanmin", "count", "mean", "nanmean", "var", "nanvar",
@@ -163,8 +163,19 @@ def run_impl(c: Case):
                 lazy = hasattr(res, "dask")
                 if c.scheduler == "sync":
                     res, groups = dask.compute(res, groups, scheduler="sync")
-                else:
+                elif c.scheduler == "threads":
                     res, groups = dask.compute(res, groups, scheduler="threads", num_workers=4)
+                else:
+                    # seeded random topological order through the harness's own executor
+                    from . import graphexec
+
+                    seed = int(c.scheduler.split(":")[1]) if ":" in c.scheduler else 0
+                    if lazy:
+                        res = graphexec.assemble_1d(graphexec.execute(res, random.Random(seed)))
+                    if hasattr(groups, "dask"):
+                        groups = graphexec.assemble_1d(graphexec.execute(groups, random.Random(seed + 1)))
+                    else:
+                        (groups,) = dask.compute(groups, scheduler="sync")
             _recorded["lazy"] = lazy
     except Exception as e:  # noqa
         return dict(kind="err", err=err_kind(e), phase=phase, msg=str(e)[:200], plan=dict(_recorded))
